@@ -191,7 +191,7 @@ def run(ctx):
 def rseq_events(r, total):
     ev = [{"ev": "rnew", "case": r["case"], "total": total, "conc": r["conc"], "linked": False, "declared": [total % 65536, total // 65536, 0, 0]}]
     for c in r["calls"]:
-        ev.append(dict(c, ev="rcall", case=r["case"]))
+        ev.append(dict(c, ev="rcall", case=r["case"], st=(c.get("st") or "").replace("State", "")))
     ev.append({"ev": "rend", "case": r["case"], "same": r["same"], "prefixok": r["prefixok"], "clean": (not r["hung"]) and r["panicked"] == ""})
     return ev
 
